@@ -121,6 +121,9 @@ func (p *protocolAdaptor) serverGetProtocolInitializer() (protocolInitializer, e
 // handleShareMemoryByFilePath
 func handleShareMemoryByFilePath(s *Session, hdr header) error {
 	s.logger.infof("handleShareMemoryMetadata head:%+v", hdr)
+	if hdr.Length() < headerSize {
+		return fmt.Errorf("handleShareMemoryByFilePath invalid event length:%d", hdr.Length())
+	}
 	body := make([]byte, hdr.Length()-headerSize)
 	err := blockReadFull(s.connFd, body)
 	if err != nil {
@@ -128,6 +131,9 @@ func handleShareMemoryByFilePath(s *Session, hdr header) error {
 		if err != io.EOF && !strings.Contains(err.Error(), "closed") && !strings.Contains(err.Error(), "reset by peer") {
 			s.logger.errorf("shmipc: Failed to read pathlen: %s", err.Error())
 		}
+		return err
+	}
+	if err := checkShmMetadata(body); err != nil {
 		return err
 	}
 	bufferPath, queuePath := s.extractShmMetadata(body)
@@ -180,6 +186,23 @@ func handleFallbackData(s *Session, h header, buf []byte) (int, bool, error) {
 	return eventLen, false, s.handleStreamMessage(stream, bufferSliceWrapper{fallbackSlice: fallbackSlice}, streamState(status))
 }
 
+// checkShmMetadata verifies that the two length-prefixed paths fit into the metadata body received from the peer.
+func checkShmMetadata(body []byte) error {
+	if len(body) < 2 {
+		return fmt.Errorf("invalid share memory metadata, length:%d", len(body))
+	}
+	queuePathLen := int(binary.BigEndian.Uint16(body[0:2]))
+	if len(body) < 2+queuePathLen+2 {
+		return fmt.Errorf("invalid share memory metadata, length:%d queuePathLen:%d", len(body), queuePathLen)
+	}
+	bufferPathLen := int(binary.BigEndian.Uint16(body[2+queuePathLen : 2+queuePathLen+2]))
+	if len(body) < 2+queuePathLen+2+bufferPathLen {
+		return fmt.Errorf("invalid share memory metadata, length:%d queuePathLen:%d bufferPathLen:%d",
+			len(body), queuePathLen, bufferPathLen)
+	}
+	return nil
+}
+
 func handleExchangeVersion(s *Session, h header) error {
 	respHeader := header(make([]byte, headerSize))
 	respHeader.encode(headerSize, maxSupportProtoVersion, typeExchangeProtoVersion)
@@ -192,10 +215,16 @@ func handleShareMemoryByMemFd(s *Session, h header) error {
 	s.logger.infof("recv memfd, header:%s", h.String())
 
 	//1.recv shm metadata
+	if h.Length() < headerSize {
+		return fmt.Errorf("handleShareMemoryByMemFd invalid event length:%d", h.Length())
+	}
 	body := make([]byte, h.Length()-headerSize)
 	err := blockReadFull(s.connFd, body)
 	if err != nil {
 		return errors.New("read shm metadata failed,reason:" + err.Error())
+	}
+	if err := checkShmMetadata(body); err != nil {
+		return err
 	}
 	bufferPath, queuePath := s.extractShmMetadata(body)
 
